@@ -3,10 +3,20 @@
 // read at every stage.  For every executed operation one line goes to the cases file (input of the Lean
 // driver `psvdriver C20`) and one to the impl file (result, allocator events, abstract state, ledger totals).
 //
+// Besides allocation failures and failing reads the histories contain fits whose GLAM step fails (the call of
+// glamfit_complex is redirected with -Wl,--wrap to a wrapper which returns 1 when armed) and writes which hit an
+// I/O error (a path that cannot be created; a cfitsio output step or libc fwrite failing, interposed in this
+// executable and forwarded with dlsym(RTLD_NEXT) as in c08_harness.cpp), and the stacking constructor.
+//
 // usage: c20_harness <cases> <impl> <stats.json> <first_seq> <n_seq> <scratch_dir>
+//        c20_harness probe <name> <scratch_dir>     one known-defect demonstration in a process of its own
 // env:   VERIF_SEED; PSV_ONLY="seq fail rfop rfkind rfarg" runs that single variant; PSV_KEEP="0110..." keeps
-//        only the ops whose character is '1' (shrinking); PSV_MAXFAIL caps the failure positions per sequence.
+//        only the ops whose character is '1' (shrinking); PSV_MAXFAIL caps the failure positions per sequence;
+//        PSV_C20_CFG=head|repaired: which stacking constructor the tree has (head: /repo as it is; the harness then
+//        does not execute calls that are undefined behaviour there, see `avoided`).
 #include "common.h"
+#include <dlfcn.h>
+#include <cerrno>
 #include <fstream>
 #include <set>
 #include <unistd.h>
@@ -72,6 +82,45 @@ template <> struct CA<void> {
   template <typename U> struct rebind { typedef CA<U> other; };
 };
 typedef photospline::splinetable<CA<void>> CT;
+
+// ------------------------------------------------------------------ injected GLAM and output failures
+static bool g_glam_fail = false; static long g_glam_fired = 0;
+extern "C" int __real_glamfit_complex(const struct ndsparse*, const double*, const double* const*, uint32_t, const uint64_t*,
+                                      const double* const*, const uint64_t*, float*, const uint32_t*, cholmod_sparse*, uint32_t, int, cholmod_common*);
+extern "C" int __wrap_glamfit_complex(const struct ndsparse* d, const double* w, const double* const* c, uint32_t nd, const uint64_t* nk,
+                                      const double* const* k, const uint64_t* na, float* co, const uint32_t* o, cholmod_sparse* pen, uint32_t mono, int verbose, cholmod_common* cc) {
+  if (g_glam_fail) { g_glam_fired++; return 1; }   // what glamfit_complex reports when the solver gives up ("Solution FAILED")
+  return __real_glamfit_complex(d, w, c, nd, nk, k, na, co, o, pen, mono, verbose, cc);
+}
+// output: which step fails (0 = none).  1 ffcrim (create image), 2 ffppx (write pixels), 3 ffpky (write key), 4 ffclos (close),
+// 5 libc fwrite (ENOSPC, every write from now on); `g_io_nth`: the n-th call of that kind (0 or 1; both always happen).
+static int g_io_kind = 0, g_io_nth = 0, g_io_seen = 0; static long g_io_fired = 0;
+static bool io_hit(int kind) { if (g_io_kind != kind) return false; if (g_io_seen++ != g_io_nth) return false; g_io_fired++; return true; }
+extern "C" int ffcrim(fitsfile* f, int bitpix, int naxis, long* naxes, int* status) {
+  static auto real = (int (*)(fitsfile*, int, int, long*, int*))dlsym(RTLD_NEXT, "ffcrim");
+  if (io_hit(1)) { *status = WRITE_ERROR; return *status; }
+  return real(f, bitpix, naxis, naxes, status);
+}
+extern "C" int ffppx(fitsfile* f, int dt, long* fp, LONGLONG n, void* a, int* status) {
+  static auto real = (int (*)(fitsfile*, int, long*, LONGLONG, void*, int*))dlsym(RTLD_NEXT, "ffppx");
+  if (io_hit(2)) { *status = WRITE_ERROR; return *status; }
+  return real(f, dt, fp, n, a, status);
+}
+extern "C" int ffpky(fitsfile* f, int dt, const char* k, void* v, const char* c, int* status) {
+  static auto real = (int (*)(fitsfile*, int, const char*, void*, const char*, int*))dlsym(RTLD_NEXT, "ffpky");
+  if (io_hit(3)) { *status = WRITE_ERROR; return *status; }
+  return real(f, dt, k, v, c, status);
+}
+extern "C" int ffclos(fitsfile* f, int* status) {
+  static auto real = (int (*)(fitsfile*, int*))dlsym(RTLD_NEXT, "ffclos");
+  if (io_hit(4)) { int s = 0; real(f, &s); *status = FILE_NOT_CLOSED; return *status; } // handle released, error reported (a failing fclose)
+  return real(f, status);
+}
+extern "C" size_t fwrite(const void* p, size_t sz, size_t n, FILE* f) {
+  static auto real = (size_t(*)(const void*, size_t, size_t, FILE*))dlsym(RTLD_NEXT, "fwrite");
+  if (g_io_kind == 5 && f != stdout && f != stderr) { g_io_fired++; errno = ENOSPC; return 0; }
+  return real(p, sz, n, f);
+}
 
 // ------------------------------------------------------------------ files
 struct AuxD { int id; size_t k, raw, stored; };
@@ -151,18 +200,20 @@ struct Op {
   int wkind = 0, keyid = 0; std::string key, sval; bool isint = false; int ival = 0; // W K G
   bool valid = true; int order = 2, nknots = 10; // T
   int dim = 0, nk = 1;                           // V
-  std::vector<size_t> perm;                      // P
+  std::vector<size_t> perm;                      // P; Y: the source slots
+  int glam = 1;                                  // T: 0 = the GLAM step fails
+  int io = 0, ionth = 0;                         // O Q: 0 no failure; 1..5 see g_io_kind; 6 (O) a path that cannot be created
 };
 
 static std::string tok(const std::string& x) { return x.empty() ? "-" : x; }
 static std::string ser(const Op& o) {
   std::ostringstream s; s << o.tag << " " << o.i << " " << o.j << " " << o.file << " " << o.kind << " " << o.arg << " " << o.wkind << " " << o.keyid << " "
-    << tok(o.key) << " " << tok(o.sval) << " " << o.isint << " " << o.ival << " " << o.valid << " " << o.order << " " << o.nknots << " " << o.dim << " " << o.nk << " " << o.perm.size();
+    << tok(o.key) << " " << tok(o.sval) << " " << o.isint << " " << o.ival << " " << o.valid << " " << o.order << " " << o.nknots << " " << o.dim << " " << o.nk << " " << o.glam << " " << o.io << " " << o.ionth << " " << o.perm.size();
   for (auto p : o.perm) s << " " << p;
   return s.str();
 }
 static Op deser(const std::string& line) {
-  std::istringstream s(line); Op o; size_t np = 0; s >> o.tag >> o.i >> o.j >> o.file >> o.kind >> o.arg >> o.wkind >> o.keyid >> o.key >> o.sval >> o.isint >> o.ival >> o.valid >> o.order >> o.nknots >> o.dim >> o.nk >> np;
+  std::istringstream s(line); Op o; size_t np = 0; s >> o.tag >> o.i >> o.j >> o.file >> o.kind >> o.arg >> o.wkind >> o.keyid >> o.key >> o.sval >> o.isint >> o.ival >> o.valid >> o.order >> o.nknots >> o.dim >> o.nk >> o.glam >> o.io >> o.ionth >> np;
   if (o.key == "-") o.key.clear(); if (o.sval == "-") o.sval.clear();
   o.perm.resize(np); for (size_t k = 0; k < np; k++) s >> o.perm[k];
   return o;
@@ -185,7 +236,9 @@ static std::string op_line(const Op& o) {
   std::ostringstream s; s << o.tag << " " << o.i;
   switch (o.tag) {
     case 'F': case 'R': case 'M': s << " " << file_desc(files[o.file], o.kind, o.arg); break;
-    case 'T': s << " " << (o.valid ? 1 : 0) << " 1 1 " << o.order << " " << o.nknots; break;
+    case 'T': s << " " << (o.valid ? 1 : 0) << " " << (o.glam ? 1 : 0) << " 1 " << o.order << " " << o.nknots; break;
+    case 'O': case 'Q': s << " " << (o.io == 0 ? 1 : 0); break;
+    case 'Y': s << " " << o.nk << " " << o.perm.size(); for (auto p : o.perm) s << " " << p; break;
     case 'W': s << " " << o.wkind << " " << o.keyid << " " << o.key.size() + 1 << " " << (o.isint ? std::to_string(o.ival).size() : o.sval.size()) + 1; break;
     case 'K': case 'G': s << " " << o.keyid; break;
     case 'V': s << " " << o.dim << " " << o.nk; break;
@@ -203,9 +256,10 @@ static const std::string& file_path(const Op& o) {
   return (o.arg % 2) ? f.garbage : f.missing;
 }
 
+// `extents` is reported separately: the destructor and write_fits test it, everything else does not
 static char core_state(const CT* t) {
-  int n = (t->order != nullptr) + (t->knots != nullptr) + (t->nknots != nullptr) + (t->extents != nullptr) + (t->coefficients != nullptr) + (t->naxes != nullptr) + (t->strides != nullptr);
-  return n == 7 ? 'y' : (n == 0 ? 'n' : 'p');
+  int n = (t->order != nullptr) + (t->knots != nullptr) + (t->nknots != nullptr) + (t->coefficients != nullptr) + (t->naxes != nullptr) + (t->strides != nullptr);
+  return n == 6 ? 'y' : (n == 0 ? 'n' : 'p');
 }
 static std::string state_str() {
   std::ostringstream s;
@@ -213,7 +267,7 @@ static std::string state_str() {
     if (i) s << " ";
     CT* t = slot[i];
     if (!t) { s << "-"; continue; }
-    s << t->ndim << "," << t->naux << "," << core_state(t) << "," << (t->periods != nullptr ? 1 : 0) << "," << (t->aux != nullptr ? 1 : 0);
+    s << t->ndim << "," << t->naux << "," << core_state(t) << "," << (t->periods != nullptr ? 1 : 0) << "," << (t->aux != nullptr ? 1 : 0) << "," << (t->extents != nullptr ? 1 : 0);
   }
   return s.str();
 }
@@ -221,7 +275,7 @@ static std::string state_str() {
 static std::string digest(const CT* t) {
   if (!t) return "dead";
   char c = core_state(t);
-  if (t->ndim == 0) return (c == 'n' && t->naux == 0 && !t->aux && !t->periods) ? "empty" : "empty-but-owning";
+  if (t->ndim == 0) return (c == 'n' && t->naux == 0 && !t->aux && !t->periods && !t->extents) ? "empty" : "empty-but-owning";
   if (c != 'y') return "partial";
   uint64_t h = 1469598103934665603ULL; auto mix = [&](uint64_t v) { h = (h ^ v) * 1099511628211ULL; };
   mix(t->ndim);
@@ -230,6 +284,8 @@ static std::string digest(const CT* t) {
     for (uint64_t k = 0; k < t->nknots[i]; k++) mix(psv::cbits(t->knots[i][k])); }
   uint64_t nc = t->strides[0] * t->naxes[0];
   for (uint64_t k = 0; k < nc; k++) mix(psv::cbits(t->coefficients[k]));
+  mix(t->extents != nullptr);
+  if (t->extents) for (uint32_t i = 0; i < t->ndim; i++) { mix(psv::cbits(t->extents[i][0])); mix(psv::cbits(t->extents[i][1])); }
   mix(t->naux);
   for (uint32_t i = 0; i < t->naux; i++) { for (const char* p = t->aux[i][0]; *p; p++) mix(*p); mix(0); for (const char* p = t->aux[i][1]; *p; p++) mix(*p); }
   return std::to_string(h);
@@ -246,9 +302,25 @@ static bool do_fit(CT* t, const Op& o) {
   for (int k = 0; k < o.nknots; k++) knots[0].push_back(lo + (hi - lo) * k / (o.nknots - 1));
   std::vector<uint32_t> ord(1, o.order), pen(1, o.order);
   std::vector<double> smooth(1, 0.1);
+  struct Arm { Arm(bool f) { g_glam_fail = f; } ~Arm() { g_glam_fail = false; } } arm(o.glam == 0);
   t->fit(data, w, coords, ord, knots, smooth, pen, CT::no_monodim, false);
   return true;
 }
+
+static bool g_cfg_repaired = false;
+// independent restatement of what the stacking constructor needs (its own checks are `assert`s, and not all of them)
+static bool stack_args_ok(const std::vector<CT*>& v) {
+  if (v.size() < 2) return false;
+  const CT* f = v.front();
+  if (f->ndim == 0 || !f->extents || !v.back()->extents) return false;
+  for (const CT* t : v) { if (t->ndim != f->ndim) return false;
+    for (uint32_t d = 0; d < f->ndim; d++) if (t->order[d] != f->order[d] || t->nknots[d] != f->nknots[d] || t->naxes[d] != f->naxes[d]) return false; }
+  return true;
+}
+struct IoArm {
+  IoArm(int kind, int nth) { g_io_kind = (kind >= 1 && kind <= 5) ? kind : 0; g_io_nth = nth; g_io_seen = 0; g_io_fired = 0; }
+  ~IoArm() { g_io_kind = 0; }
+};
 
 // executes one op on the real objects; returns result token
 static std::string exec(const Op& o) {
@@ -272,13 +344,32 @@ static std::string exec(const Op& o) {
 #endif
       case 'G': { if (!a) return "skip"; std::string v; bool f1 = a->read_key(o.key.c_str(), v); const char* p = a->get_aux_value(o.key.c_str());
         if (f1 != (p != nullptr)) return "inconsistent"; return f1 ? "tt" : "ff"; }
-      case 'V': { if (!a) return "skip"; double k[3] = {-0.1, 0.0, 0.1}; a->convolve(o.dim, k, o.nk); return "ok"; }
-      case 'P': if (!a) return "skip"; a->permuteDimensions(o.perm); return "ok";
+      // `avoided`: the call would read through the null `extents` of a table made by the stacking constructor (undefined
+      // behaviour that would end this process); it is not executed, the model has to predict `crash` (see the probes)
+      case 'V': { if (!a) return "skip"; if (a->ndim && !a->extents && (uint32_t)o.dim < a->ndim && o.nk != 0) { stats["avoided_null_extents"]++; return "avoided"; }
+        double k[3] = {-0.1, 0.0, 0.1}; a->convolve(o.dim, k, o.nk); return "ok"; }
+      case 'P': { if (!a) return "skip";
+        if (a->ndim && !a->extents) { std::vector<size_t> q(o.perm); std::sort(q.begin(), q.end()); bool isperm = q.size() == a->ndim; for (size_t k = 0; isperm && k < q.size(); k++) isperm = q[k] == k;
+          if (isperm) { stats["avoided_null_extents"]++; return "avoided"; } }
+        a->permuteDimensions(o.perm); return "ok"; }
+      case 'Y': { if (a) return "skip"; std::vector<CT*> v; for (auto sidx : o.perm) { if (sidx >= (size_t)NSLOT || !slot[sidx]) return "skip"; v.push_back(slot[sidx]); }
+        if (!g_cfg_repaired && !stack_args_ok(v)) { stats["avoided_stack_args"]++; return "avoided"; }
+        std::vector<double> x; for (size_t k = 0; k < v.size(); k++) x.push_back(1.5 * k);
+        slot[o.i] = new CT(v, x, o.nk, CA<void>(g_next_arena++)); return "ok"; }
       case 'X': if (a || !b) return "skip"; slot[o.i] = new CT(std::move(*b)); return "ok";
       case 'A': if (!a || !b) return "skip"; *a = std::move(*b); return "ok";
       case 'E': { if (!a || !b) return "skip"; bool e = (*a == *b); bool ne = (*a != *b); if (e == ne) return "inconsistent"; return e ? "tt" : "ff"; }
-      case 'O': if (!a) return "skip"; a->write_fits(scratch + "/out.fits"); return "ok";
-      case 'Q': { if (!a) return "skip"; auto r = a->write_fits_mem(); free(r.first); return "ok"; }
+      // an armed output failure must make the call throw, and it must be the injected failure that did it (`nofire` otherwise)
+      case 'O': case 'Q': { if (!a) return "skip";
+        IoArm arm(o.io, o.ionth);
+        try {
+          if (o.tag == 'O') a->write_fits(o.io == 6 ? scratch + "/no-such-dir/out.fits" : scratch + "/out.fits");
+          else { auto r = a->write_fits_mem(); free(r.first); }
+        } catch (...) {
+          if (a->ndim != 0) { if (o.io >= 1 && o.io <= 5 && !g_io_fired) return "nofire"; if (o.io) stats[o.tag == 'O' ? "write_fits_io_failures" : "write_fits_mem_io_failures"]++; }
+          throw;
+        }
+        return o.io != 0 ? "nofire" : "ok"; }
       case 'D': if (!a) return "skip"; delete a; slot[o.i] = nullptr; return "ok";
     }
   } catch (std::bad_alloc&) { stats["threw_bad_alloc"]++; return "threw";
@@ -290,8 +381,8 @@ static std::string exec(const Op& o) {
 static Op gen_op(Rng& r, int nconv) {
   Op o; o.i = r.range(0, NSLOT - 1); o.j = r.range(0, NSLOT - 1);
   CT* a = slot[o.i];
-  static const char live_ops[] = "RRMTTWWWWKKGVVPPAEOQDXRFC";
-  if (!a) { const char c[] = "CCCFFX"; o.tag = c[r.below(6)]; }
+  static const char live_ops[] = "RRMTTWWWWKKGVVPPAEOOQQDXRFCY";
+  if (!a) { const char c[] = "CCCFFXYY"; o.tag = c[r.below(8)]; }
   else if (a->ndim == 0 && r.coin(2, 3)) { const char c[] = "RRMTTR"; o.tag = c[r.below(6)]; } // populate empty tables most of the time
   else o.tag = live_ops[r.below(sizeof(live_ops) - 1)];
   if (o.tag == 'X' || o.tag == 'A' || o.tag == 'E') { // second operand: prefer a live one
@@ -304,7 +395,18 @@ static Op gen_op(Rng& r, int nconv) {
       int c = r.below(10);
       if (c < 6) o.kind = 0; else if (c < 7) { o.kind = 1; o.arg = r.below(2); } else if (c < 8) o.kind = 2; else { o.kind = 3; o.arg = r.below(files[o.file].dims.size()); }
       break; }
-    case 'T': o.valid = !r.coin(1, 6); o.order = r.range(1, 2); o.nknots = r.range(9, 12); break;
+    case 'T': o.valid = !r.coin(1, 6); o.order = r.range(1, 2); o.nknots = r.range(9, 12); o.glam = r.coin(1, 5) ? 0 : 1; break;
+    case 'O': if (r.coin(2, 5)) { o.io = r.range(1, 6); o.ionth = (o.io <= 3) ? r.below(2) : 0; } break;
+    case 'Q': if (r.coin(2, 5)) { o.io = r.range(1, 4); o.ionth = (o.io <= 3) ? r.below(2) : 0; } break;
+    case 'Y': { // sources: live tables of one shape (the same table may appear several times), first and last with extents
+      std::vector<int> cand; for (int k = 0; k < NSLOT; k++) if (slot[k] && slot[k]->ndim && slot[k]->ndim <= 2 && slot[k]->get_ncoeffs() <= 400) cand.push_back(k);
+      o.nk = r.range(1, 2);
+      if (cand.empty()) { o.perm = {(size_t)r.below(NSLOT), (size_t)r.below(NSLOT)}; break; }
+      int base = cand[r.below(cand.size())]; std::vector<int> same;
+      for (int k : cand) { std::vector<CT*> two{slot[base], slot[k]}; if (stack_args_ok(two)) same.push_back(k); }
+      if (same.empty()) { o.perm = {(size_t)base, (size_t)base}; break; }
+      int n = r.range(2, 3); for (int k = 0; k < n; k++) o.perm.push_back(same[r.below(same.size())]);
+      break; }
     case 'W': case 'K': case 'G': {
       o.keyid = r.range(1, NKEYS); o.key = KEYS[o.keyid];
       if (a && a->ndim != 0 && a->naux > 0 && a->aux && r.coin()) { // aim at a key the table already has (update / removal paths)
@@ -334,6 +436,7 @@ static Op gen_op(Rng& r, int nconv) {
 // ------------------------------------------------------------------ one run of a sequence
 static FILE *fc, *fi, *fops = nullptr;
 struct Variant { long seq; long fail; int rfop, rfkind, rfarg; };
+static std::vector<std::pair<long, long>> g_stack_ranges; // allocation counters [first, last) spent inside stacking constructors (fault-free run)
 
 static void reset_world() {
   for (int i = 0; i < NSLOT; i++) slot[i] = nullptr; // objects of an aborted variant are abandoned on purpose
@@ -355,14 +458,15 @@ static long run_variant(const Variant& v, std::vector<Op>& ops, Rng* gen, int no
     std::string line = op_line(o);
     fprintf(fc, "%s\n", line.c_str()); fflush(fc);
     fprintf(fi, "#%s\n", line.c_str()); fflush(fi); // the op about to run (crash attribution); ignored by the comparison
-    CT* target = (o.tag != 'C' && o.tag != 'F' && o.tag != 'X' && o.i < NSLOT) ? slot[o.i] : nullptr;
+    CT* target = (o.tag != 'C' && o.tag != 'F' && o.tag != 'X' && o.tag != 'Y' && o.i < NSLOT) ? slot[o.i] : nullptr;
     std::string before = digest(target);
-    G.ev.clear(); long nulld0 = G.nulld;
+    G.ev.clear(); long nulld0 = G.nulld, nalloc0 = G.nalloc;
     std::string res = exec(o);
-    total += 0;
+    if (gen && o.tag == 'Y' && G.nalloc > nalloc0) g_stack_ranges.push_back({nalloc0, G.nalloc});
+    if (o.tag == 'T' && o.glam == 0 && g_glam_fired) { stats["glam_failures"] += g_glam_fired; g_glam_fired = 0; }
     if (res == "ok" && o.tag == 'V') nconv++;
     std::string after = (o.tag == 'D') ? "dead" : digest((o.i < NSLOT) ? slot[o.i] : nullptr);
-    const char* same = (res != "threw") ? "-" : (after == before ? "same" : (after == "empty" ? "empty" : (after == "dead" ? "dead" : "CHANGED")));
+    const char* same = (res != "threw" || o.tag == 'Y') ? "-" : (after == before ? "same" : (after == "empty" ? "empty" : (after == "dead" ? "dead" : "CHANGED")));
     std::string src = "-";
     if ((o.tag == 'X' || o.tag == 'A') && res == "ok" && o.i != o.j) src = digest(slot[o.j]);
     fprintf(fi, "%s | %s | %s | %zu %zu %ld | %s %s %ld\n", res.c_str(), ev_str().c_str(), state_str().c_str(), G.live.size(), G.bytes(), G.bad, same, src.c_str(), G.nulld - nulld0);
@@ -381,23 +485,47 @@ static long run_variant(const Variant& v, std::vector<Op>& ops, Rng* gen, int no
   return G.nalloc;
 }
 
-// The stacking constructor is not part of the modelled operation set; this fixed history checks its ledger only.
-static void stack_test(const std::string& dir) {
-  std::string p = dir + "/stackbase.fits";
+// ------------------------------------------------------------------ known-defect demonstrations, one per process
+// prints "PROBE <name> <result> <live blocks> <live bytes> <bad>"; a crash (sanitizer report, assertion) ends the process instead.
+static int probe(const std::string& name, const std::string& dir) {
+  std::string p = dir + "/stackbase.fits", p2 = dir + "/stackbase2.fits";
   { psv::Table t; std::vector<uint32_t> ord{2}; std::vector<std::vector<double>> kn{{0, 1, 2, 3, 4, 5, 6, 7}}; std::vector<float> coef(5, 1.f);
     psv::build_table(t, ord, kn, coef); t.write_fits(p); }
+  { psv::Table t; std::vector<uint32_t> ord{2}; std::vector<std::vector<double>> kn{{0, 1, 2, 3, 4, 5, 6, 7, 8, 9, 10, 11}}; std::vector<float> coef(9, 1.f);
+    psv::build_table(t, ord, kn, coef); t.write_fits(p2); }
   reset_world();
   std::string res = "ok";
-  try { CT a(p), b(p), c(p); std::vector<CT*> v{&a, &b, &c}; std::vector<double> x{0, 1, 2}; CT s(v, x, 2); if (s.get_ndim() != 2) res = "wrong"; }
-  catch (std::exception&) { res = "threw"; }
-  fprintf(fc, "Y\n"); fprintf(fi, "STACK %s %zu %zu %ld\n", res.c_str(), G.live.size(), G.bytes(), G.bad);
-  for (auto& q : G.live) free(q.first);
-  G.live.clear();
+  std::vector<double> x{0, 1, 2};
+  try {
+    if (name == "stack-then-permute") { CT a(p), b(p), c(p); std::vector<CT*> v{&a, &b, &c}; CT s(v, x, 2); std::vector<size_t> q{1, 0}; s.permuteDimensions(q); }
+    else if (name == "stack-then-convolve") { CT a(p), b(p), c(p); std::vector<CT*> v{&a, &b, &c}; CT s(v, x, 2); double k[3] = {-0.1, 0.0, 0.1}; s.convolve(0, k, 3); }
+    else if (name == "stack-then-extent") { CT a(p), b(p), c(p); std::vector<CT*> v{&a, &b, &c}; CT s(v, x, 2); if (!(s.lower_extent(0) <= s.upper_extent(0))) res = "wrong"; }
+    else if (name == "stack-alloc-failure") { // every position of one failed allocation inside the constructor
+      CT a(p), b(p), c(p); std::vector<CT*> v{&a, &b, &c};
+      long before = G.nalloc; { CT s(v, x, 2); } long n = G.nalloc - before; size_t live0 = G.live.size(); long leaks = 0;
+      for (long k = 0; k < n; k++) { G.countdown = k; try { CT s(v, x, 2); res = "nothrow"; } catch (std::bad_alloc&) {} G.countdown = -1;
+        if (G.live.size() != live0) leaks++;
+        live0 = G.live.size(); }
+      if (leaks) res = "leaked-at-" + std::to_string(leaks) + "-of-" + std::to_string(n) + "-positions";
+      size_t own = 0; for (CT* t : v) own += 9 + t->ndim + (t->aux ? 1 + 3 * t->naux : 0); // what a, b, c themselves hold
+      printf("PROBE %s %s %zu %zu %ld\n", name.c_str(), res.c_str(), G.live.size() - own, G.bytes(), G.bad); return 0; }
+    else if (name == "write-mem-failure") { // a failing write_fits_mem: the buffer it was building must not be abandoned (LeakSanitizer decides)
+      CT a(p); for (int kind = 1; kind <= 4; kind++) { IoArm arm(kind, 0); try { auto r = a.write_fits_mem(); free(r.first); res = "nothrow"; } catch (std::exception&) {} } }
+    else if (name == "stack-single-table") { CT a(p); std::vector<CT*> v{&a}; std::vector<double> x1{0}; CT s(v, x1, 2); }
+    else if (name == "stack-mismatched-shapes") { CT a(p), b(p2); std::vector<CT*> v{&b, &a, &b}; CT s(v, x, 2); }
+    else if (name == "stack-empty-table") { CT a(p), e; std::vector<CT*> v{&a, &e, &a}; CT s(v, x, 2); }
+    else { fprintf(stderr, "unknown probe\n"); return 2; }
+  } catch (std::exception& e) { res = "threw"; }
+  printf("PROBE %s %s %zu %zu %ld\n", name.c_str(), res.c_str(), G.live.size(), G.bytes(), G.bad);
+  return 0;
 }
 
 int main(int argc, char** argv) {
+  { const char* c = getenv("PSV_C20_CFG"); g_cfg_repaired = c && !strcmp(c, "repaired"); }
+  if (argc == 4 && !strcmp(argv[1], "probe")) return probe(argv[2], argv[3]);
   if (argc < 7) { fprintf(stderr, "usage\n"); return 2; }
   fc = fopen(argv[1], "w"); fi = fopen(argv[2], "w");
+  fprintf(fc, "CFG %s\n", g_cfg_repaired ? "repaired" : "head"); fprintf(fi, "CFG\n");
   long first = atol(argv[4]), nseq = atol(argv[5]); scratch = argv[6];
   uint64_t seed = psv::env_seed();
   Rng fr(seed * 7919 + 17);
@@ -406,7 +534,6 @@ int main(int argc, char** argv) {
   long maxfail = psv::env_long("PSV_MAXFAIL", 100000);
   std::string keep = keepenv ? keepenv : "";
   long variants = 0;
-  if (!only && first == 0) stack_test(scratch);
   if (only) {
     Variant v; sscanf(only, "%ld %ld %d %d %d", &v.seq, &v.fail, &v.rfop, &v.rfkind, &v.rfarg);
     // the history of that sequence as generated (and saved) by the full run: PSV_OPSFILE
@@ -417,10 +544,17 @@ int main(int argc, char** argv) {
   } else for (long s = first; s < first + nseq; s++) {
     Rng r(seed * 1000003ULL + s * 7 + 1); std::vector<Op> ops; int nops = 6 + (int)r.below(20);
     fops = fopen((scratch + "/ops_" + std::to_string(s) + ".txt").c_str(), "w");
+    g_stack_ranges.clear();
     long nalloc = run_variant(Variant{s, 0, -1, 0, 0}, ops, &r, nops, ""); variants++;
     fclose(fops); fops = nullptr;
     stats["allocations_baseline"] += nalloc;
-    for (long k = 1; k <= nalloc && k <= maxfail; k++) { run_variant(Variant{s, k, -1, 0, 0}, ops, nullptr, nops, ""); variants++; stats["alloc_failure_variants"]++; }
+    for (long k = 1; k <= nalloc && k <= maxfail; k++) {
+      // /repo as it is: a failed allocation inside the stacking constructor leaks (known finding, shown by the probe
+      // `stack-alloc-failure`); those positions are only run on a tree with C20-14
+      bool inside = false; for (auto& rg : g_stack_ranges) inside = inside || (k - 1 >= rg.first && k - 1 < rg.second);
+      if (inside && !g_cfg_repaired) { stats["alloc_failure_positions_inside_stacking_skipped"]++; continue; }
+      if (inside) stats["alloc_failure_variants_inside_stacking"]++;
+      run_variant(Variant{s, k, -1, 0, 0}, ops, nullptr, nops, ""); variants++; stats["alloc_failure_variants"]++; }
     for (int k = 0; k < nops; k++) if ((ops[k].tag == 'R' || ops[k].tag == 'M' || ops[k].tag == 'F') && ops[k].kind == 0) {
       int nd = files[ops[k].file].dims.size();
       run_variant(Variant{s, 0, k, 1, (int)(s % 2)}, ops, nullptr, nops, ""); run_variant(Variant{s, 0, k, 2, 0}, ops, nullptr, nops, "");
